@@ -213,6 +213,9 @@ def real_case(workdir, case):
 
     t = threading.Thread(target=in_thread, name='case-%d' % case['id'], daemon=True)
     t.start(); t.join(WATCHDOG_S * 3)
+    end = time.time() + 30
+    while t.is_alive() and not tr.lock_waits and time.time() < end: t.join(0.2)      # slow machine, nobody waits for a lock
+    if t.is_alive(): t.join(WATCHDOG_S)
     if t.is_alive():
         out['blocked'] = {'where': 'case thread', 'waits': list(tr.lock_waits), 'sessions_done': len(out['sessions']),
                           'events': tr.compact(tr.events[-12:])}
@@ -221,7 +224,7 @@ def real_case(workdir, case):
     m = tr.mark()
     def other():
         return run_session(E, FOLLOW[0], FOLLOW[1])
-    st, r = Watchdog.run(other, WATCHDOG_S, name='other-%d' % case['id'])
+    st, r = Watchdog.run(other, WATCHDOG_S, name='other-%d' % case['id'], slow_ok=lambda: not tr.lock_waits)
     out['other'] = {'status': st if st != 'ok' else ('ok' if r is None else 'raised'), 'exc': repr(r)[:200] if r is not None else None,
                     'waits': list(tr.lock_waits) if st == 'blocked' else []}
     out['lock_after'] = E.db.provider.transaction_lock.locked()
@@ -407,7 +410,7 @@ def _worker(args):
 
 
 def run_cases(ctx, cases, workdir):
-    procs = min(16, os.cpu_count() or 2, max(1, len(cases) // 20))
+    procs = min(8, max(1, (os.cpu_count() or 2) // 2), max(1, len(cases) // 50))
     if procs <= 1:
         return dict(_worker((workdir, c)) for c in cases)
     mpctx = multiprocessing.get_context('fork')
